@@ -66,18 +66,33 @@ class DeadlockOracle(O.Monitor):
         self.blocked_prev = set()
         self.last_t = None
         self.knot = set()
+        self.cur_call = None
+        self.events_in_call = 0
+        self.formed_in_phase1 = False
 
     def before(self, Q, node, etype):
-        if self.prev and not self.reported:
+        k = getattr(Q, "call_index", 0)
+        if k != self.cur_call:
+            self.cur_call = k
+            self.events_in_call = 0
+        # a deadlock that formed during an earlier simulate_until_max_time phase must stop the run at the first event after resuming
+        if Q.cur_step[0] == "until_deadlock" and self.prev and self.events_in_call >= 1 and not self.reported:
             self.reported = True
-            Q.report(self.P, "C18.stops-at-first-deadlock", etype, {"deadlocked_nodes": sorted(self.prev), "since": O._num(self.last_t)})
+            Q.report(self.P, "C18.stops-at-first-deadlock", etype, {"deadlocked_nodes": sorted(self.prev), "since": O._num(self.last_t),
+                                                                    "formed_in_earlier_phase": bool(self.formed_in_phase1)})
 
     def after(self, Q, node, etype, nxt):
         t = Q.current_time
         self.last_t = t
+        self.events_in_call += 1
+        was = bool(self.prev)
         self.prev = oracle(Q)
+        if Q.cur_step[0] != "until_deadlock":
+            if self.prev and not was:
+                self.formed_in_phase1 = True
+                self.activity["deadlock_formed_before_resume"] = 1
         st_ = Q.statetracker.hash_state()
-        if st_ not in self.first:
+        if Q.cur_step[0] == "until_deadlock" and st_ not in self.first:
             self.first[st_] = t
         blocked = set()
         for nd in Q.transitive_nodes:
@@ -90,6 +105,8 @@ class DeadlockOracle(O.Monitor):
 
     def after_call(self, Q, k, step, completed):
         rep = lambda clause, d: Q.report(self.P, "C18." + clause, "return", d)
+        if step[0] != "until_deadlock":
+            return
         if not self.prev:
             rep("no-deadlock-reported-without-a-deadlock", {"clock": O._num(self.last_t)})
             return
@@ -117,7 +134,9 @@ def nontrivial(a, spec, res):
 
 
 def classes(a, spec, res):
-    out = [k for k in ("deadlocks", "knot_ge_2", "multi_server_in_knot", "self_deadlock") if a.get(k)]
+    out = [k for k in ("deadlocks", "knot_ge_2", "multi_server_in_knot", "self_deadlock", "deadlock_formed_before_resume") if a.get(k)]
+    if spec["seed"] % 5 < 2:
+        out.append("two_phase_run")
     if res.budget_hit:
         out.append("no_deadlock_within_budget")
     return out
@@ -127,6 +146,9 @@ def post_filter(spec):
     spec = dict(spec)
     spec["deadlock"] = True
     spec["plan"] = {"kind": "until_deadlock"}
+    if spec["seed"] % 5 < 2:
+        # two-phase run: simulate_until_max_time first (a knot may already form there), then simulate_until_deadlock
+        spec["plan"]["T_before"] = [1.5, 2.75, 4.0, 6.5][spec["seed"] % 4]
     if not spec.get("tracker") or spec["tracker"]["kind"] not in ("NaiveBlocking", "MatrixBlocking", "NodePopulation"):
         spec["tracker"] = {"kind": ["NaiveBlocking", "MatrixBlocking"][spec["seed"] % 2]}
     return spec
